@@ -106,6 +106,15 @@ theorem c02_repeated_keyword_fails (T : Tables) (env : Env) (fn : String) (args 
   · split <;> exact failed_fail _
   · split <;> rfl
 
+/-- On every pathway that parses an expression — math, logic and tool — a text in which some call repeats a keyword
+    (anywhere, evaluated or not, for any callee) fails with nothing executed. -/
+theorem c02_repeated_keyword_refused_on_every_pathway (T : Tables) (env : Env) (tools : List ToolReg)
+    (allowed : Option (List String)) (e : Expr) (hd : dupAnywhere e = true) :
+    glycolysis T env e = R.fail "SyntaxError: keyword argument repeated" ∧
+    krebs T env e = R.fail "SyntaxError: keyword argument repeated" ∧
+    toolPathway T env tools allowed e = R.fail "SyntaxError: keyword argument repeated" := by
+  simp [glycolysis, krebs, toolPathway, hd]
+
 /-- The logic pathway is `bool(...)` of the walk of the tree in which only the NAMES `true` / `false` were turned
     into constants. -/
 theorem c02_logic_is_bool_of_walk (T : Tables) (env : Env) (e : Expr) (b : Val)
@@ -147,6 +156,9 @@ example : CmpReturnsBool ⟨fun _ => .h 1, fun p _ => if p = .add then .ok (.h 2
 /-- `c02_keywords_passed`: `round(pi, ndigits=e)` succeeds and the callee sees one keyword -/
 example : (walk Gen.tables envInt (.call (.name "round") [.name "pi"] [some "ndigits"] [.name "e"])).2 = .ok (.h 11) := by
   rfl
+
+/-- `c02_repeated_keyword_refused_on_every_pathway`: `tool(k=…, k=…)` -/
+example : dupAnywhere (.call (.name "tool") [] [some "k", some "k"] [.const (.h 1), .const (.h 2)]) = true := by decide
 
 /-- `c02_repeated_keyword_fails`: `ndigits` twice -/
 example : hasDupKw [some "ndigits", some "ndigits"] = true := by decide
